@@ -137,6 +137,29 @@ pub fn scenario(t: &mut Tape, strict_only: bool, dup: u32) -> (GProg, std::colle
             }
         }
     }
+    // a shorthand whose body looks the name up on the node it is given: `attribute viash = nd => sh_val = nd.val`
+    let via_shorthand: Option<String> = if t.chance(1, 4) {
+        let name = names[t.choose(names.len())].clone();
+        features.insert("read-inside-a-shorthand-body");
+        let body_read = Expr::Scoped { id: ids.next(), scope: Box::new(Expr::Var { id: ids.next(), name: "nd".into() }), name: name.clone() };
+        items.push(Item::Shorthand { id: ids.next(), name: "viash".into(), var_id: ids.next(), var: "nd".into(), attrs: vec![Attr { name: "sh_read".into(), value: Some(body_read) }] });
+        Some(name)
+    } else {
+        None
+    };
+    // nested scopes on nodes of one kind that start at the same position: every attribute node
+    // remembers its object, and a second stanza defines a variable on that object through it
+    if t.chance(1, 4) {
+        features.insert("definition-through-a-nested-scope");
+        let at = |ids: &mut Ids| Expr::Capture { id: ids.next(), name: "at".into() };
+        let remember = Stmt::Let { id: ids.next(), var: VarRef::Scoped { id: ids.next(), scope: at(&mut ids), name: "objnode".into() }, value: Expr::Capture { id: ids.next(), name: "ob".into() } };
+        definer_stanzas.push(Item::Stanza(Stanza { id: ids.next(), query: "(attribute object: (_) @ob) @at".into(), captures: vec![Cap { name: "ob".into(), quant: Quant::One }, Cap { name: "at".into(), quant: Quant::One }], body: vec![remember], pool: usize::MAX }));
+        definer_is_outer.push(true);
+        let nested = Expr::Scoped { id: ids.next(), scope: Box::new(at(&mut ids)), name: "objnode".into() };
+        let define = Stmt::Let { id: ids.next(), var: VarRef::Scoped { id: ids.next(), scope: nested, name: "owner".into() }, value: Expr::Call { func: "source-text".into(), args: vec![at(&mut ids)] } };
+        definer_stanzas.push(Item::Stanza(Stanza { id: ids.next(), query: "(attribute) @at".into(), captures: vec![Cap { name: "at".into(), quant: Quant::One }], body: vec![define], pool: usize::MAX }));
+        definer_is_outer.push(false);
+    }
     // a definer that puts one name on two captured nodes of a match
     if t.chance(1, 4) {
         let name = names[t.choose(names.len())].clone();
@@ -206,7 +229,13 @@ pub fn scenario(t: &mut Tape, strict_only: bool, dup: u32) -> (GProg, std::colle
             Some(c) => c,
             None => continue,
         };
+        let use_shorthand = via_shorthand.as_ref() == Some(&name) && t.chance(1, 2);
         let probe = |ids: &mut Ids, target: Expr, via_link: bool| -> Stmt {
+            if use_shorthand && !via_link {
+                // the attribute is the shorthand, applied to the node itself
+                let node = Expr::Scoped { id: ids.next(), scope: Box::new(target.clone()), name: "n".into() };
+                return Stmt::AttrNode { id: ids.next(), node, attrs: vec![Attr { name: "viash".into(), value: Some(target) }] };
+            }
             let scope = if via_link { Expr::Scoped { id: ids.next(), scope: Box::new(target.clone()), name: "obj".into() } } else { target.clone() };
             let node = Expr::Scoped { id: ids.next(), scope: Box::new(target), name: "n".into() };
             Stmt::AttrNode { id: ids.next(), node, attrs: vec![Attr { name: format!("r{}_{}", ri, name.replace('-', "_")), value: Some(Expr::Scoped { id: ids.next(), scope: Box::new(scope), name: name.clone() }) }] }
